@@ -37,7 +37,7 @@ def jobs_api(rng, thorough):
 
 
 def run(ctx: core.Ctx):
-    ctx.lean_stage()
+    ctx.lean_stage(extra_props=("Tie",))
     b2check.run_b2(ctx, jobs, ["C01"], label="traffic scenarios")
     b2check.run_b2(ctx, jobs_slow, MONS, label="slow (blocking) writes, monitor only", accept=False)
     b2check.run_b2(ctx, jobs_api, MONS, label="YncaApi.send_raw after initialize(), monitor only", accept=False)
